@@ -468,6 +468,54 @@ Fixpoint natcmp (fuel : nat) (a b ra rb : list N) (fold : bool) : Z :=
   end.
 Definition l0_natcmp (a b : list N) (fold : bool) : Z := natcmp (S (length a + length b)) a b a b fold.
 
+(* Replace / WithReplacements(const Hashtable<String,String> &, max): simultaneous search-and-replace.  [pairs] are the
+   table's entries in iteration order (keys distinct); scanning left to right, at each offset the first key that occurs
+   there is replaced by its value and skipped; max = MUSCLE_NO_LIMIT is never counted down. *)
+Definition key_at (pairs : list (list N * list N)) (l : list N) : option (list N * list N) :=
+  find (fun p => negb (is_nil (fst p)) && prefixb (fst p) l) pairs.
+Definition dec_max (max : N) : N := if max =? NOLIMIT then max else max - 1.
+Fixpoint multi_fuel (fuel : nat) (pairs : list (list N * list N)) (l : list N) (max : N) : list N * N :=
+  match fuel with
+  | O => (l, 0)
+  | S f =>
+    match l with
+    | [] => ([], 0)
+    | c :: t =>
+      match (if 0 <? max then key_at pairs l else None) with
+      | Some (k, v) => let '(r, n) := multi_fuel f pairs (dropN (lenN k) l) (dec_max max) in (v ++ r, n + 1)
+      | None => let '(r, n) := multi_fuel f pairs t max in (c :: r, n)
+      end
+    end
+  end.
+Definition l0_replace_multi (l : list N) (pairs : list (list N * list N)) (max : N) : list N * N :=
+  multi_fuel (S (length l)) pairs l max.
+
+(* the matcher of the tree as pinned: per key a pointer that is reset to the start of the key on a mismatch (no
+   fall-back to a shorter border), so occurrences that begin inside a failed partial match are missed.
+   [st] is the part of the key still to be matched; returns the offsets at which the key was found. *)
+Fixpoint naive_matches (key st l : list N) (i : N) : list N :=
+  match l with
+  | [] => []
+  | c :: t =>
+    let st1 := if nthN 0 st =? c then st else key in
+    if nthN 0 st1 =? c
+    then (match tl st1 with
+          | [] => (i + 1 - lenN key) :: naive_matches key [] t (i + 1)
+          | st2 => naive_matches key st2 t (i + 1)
+          end)
+    else naive_matches key st1 t (i + 1)
+  end.
+
+(* Arg(double, minDigitsAfterDecimal, maxDigitsAfterDecimal) after the sprintf: [buf] is the text printf produced (an
+   external function); trailing zeros are dropped, then either a trailing point is dropped or zeros are added *)
+Definition l0_float_text (buf : list N) (minDigits : N) : list N :=
+  let s1 := if existsb (N.eqb 46) buf then strip_suffix_fuel (S (length buf)) buf [48] NOLIMIT else buf in
+  if minDigits =? 0 then (if ends_with s1 [46] then l0_trunc_chars s1 1 else s1)
+  else match l0_last_index_of_ch s1 46 0 with
+       | Zneg _ => (s1 ++ [46]) ++ repN 48 minDigits
+       | z => s1 ++ repN 48 (minDigits - (lenN s1 - Z.to_N z - 1))
+       end.
+
 Definition l0_padded (l : list N) (minLen : N) (right : bool) (ch : N) : list N :=
   if (lenN l <? minLen) && negb (ch =? 0)
   then (if right then l ++ repN ch (minLen - lenN l) else repN ch (minLen - lenN l) ++ l)
